@@ -8,6 +8,7 @@
   C18 can cite them.
 -/
 import SkyllhModel.Model.Coords
+import SkyllhModel.Model.CoordsR7
 import SkyllhModel.Proofs.Coords
 import SkyllhModel.Generated.C19
 import Mathlib.Tactic
@@ -894,3 +895,344 @@ theorem c19_angSepCall_error (ra1 dec1 ra2 dec2 : List ℝ) (fl : Option ℝ) :
     all_goals (split at h <;> try split_ifs at h) <;> simp_all
   | ok m => simp
 
+
+/-! ## Round 7: numpy's wrap-around of negative indices in the `psi` field; `hor_to_equ_transform`
+and `ra_to_azi_transform` as whole calls; element-wise statements for the broadcasting calls -/
+
+/-- **numpy's index rule** (`np.take(…, mode='raise')`): an index is valid iff `-n ≤ i < n`; a valid
+non-negative index is itself, a valid negative one counts from the end (`i + n`); the result is
+always a position inside the array -/
+theorem c19_normIdx (n : ℕ) (i : ℤ) :
+    (∀ j : ℕ, normIdx n i = some j ↔
+      ((0 ≤ i ∧ i < n ∧ (j : ℤ) = i) ∨ (i < 0 ∧ -(n : ℤ) ≤ i ∧ (j : ℤ) = i + n))) ∧
+    (normIdx n i = none ↔ (i < -(n : ℤ) ∨ (n : ℤ) ≤ i)) ∧
+    (∀ j : ℕ, normIdx n i = some j → j < n) := by
+  unfold normIdx
+  refine ⟨fun j => ?_, ?_, fun j => ?_⟩
+  · split_ifs with h1 h2 h3 <;> simp only [Option.some.injEq, false_iff, not_or, not_and] <;> omega
+  · split_ifs with h1 h2 h3 <;> simp only [false_iff, true_iff, not_or] <;> omega
+  · split_ifs with h1 h2 h3 <;> simp only [Option.some.injEq, false_imp_iff] <;> omega
+
+example : normIdx 3 (-1) = some 2 ∧ normIdx 3 (-3) = some 0 ∧ normIdx 3 (-4) = none ∧ normIdx 3 3 = none ∧
+    normIdx 0 0 = none := by decide
+
+namespace C19
+
+theorem takeWrap_of_normIdx {α : Type} (xs : List α) (i : ℤ) (j : ℕ) (h : normIdx xs.length i = some j) :
+    takeWrap xs i = xs[j]? ∧ ∃ x, xs[j]? = some x := by
+  have hj := (c19_normIdx xs.length i).2.2 j h
+  refine ⟨by simp [takeWrap, h], ⟨xs[j], by simp [hj]⟩⟩
+
+theorem takeWrap_none {α : Type} (xs : List α) (i : ℤ) (h : normIdx xs.length i = none) :
+    takeWrap xs i = none := by simp [takeWrap, h]
+
+theorem takeWrap_isSome_iff {α : Type} (xs : List α) (i : ℤ) :
+    (takeWrap xs i).isSome = true ↔ (-(xs.length : ℤ) ≤ i ∧ i < xs.length) := by
+  cases h : normIdx xs.length i with
+  | none =>
+    rw [takeWrap_none xs i h]
+    have := (c19_normIdx xs.length i).2.1.mp h
+    simp only [Option.isSome_none, Bool.false_eq_true, false_iff]
+    omega
+  | some j =>
+    obtain ⟨h1, x, hx⟩ := takeWrap_of_normIdx xs i j h
+    rw [h1, hx]
+    have := ((c19_normIdx xs.length i).1 j).mp h
+    simp only [Option.isSome_some, true_iff]
+    omega
+
+end C19
+
+/-- a non-negative index is the plain element, the index `-k` (`1 ≤ k ≤ n`) is the `k`-th element from
+the end -/
+theorem c19_takeWrap {α : Type} (xs : List α) (k : ℕ) :
+    takeWrap xs (k : ℤ) = xs[k]? ∧
+    (0 < k → k ≤ xs.length → takeWrap xs (-(k : ℤ)) = xs[xs.length - k]?) := by
+  refine ⟨?_, fun h0 hk => ?_⟩
+  · by_cases h : k < xs.length
+    · have : normIdx xs.length (k : ℤ) = some k :=
+        ((c19_normIdx xs.length k).1 k).mpr (Or.inl ⟨by omega, by omega, rfl⟩)
+      exact (takeWrap_of_normIdx xs _ _ this).1
+    · have : normIdx xs.length (k : ℤ) = none := (c19_normIdx xs.length k).2.1.mpr (Or.inr (by omega))
+      rw [takeWrap_none xs _ this]
+      simp [List.getElem?_eq_none (by omega : xs.length ≤ k)]
+  · have : normIdx xs.length (-(k : ℤ)) = some (xs.length - k) :=
+      ((c19_normIdx xs.length _).1 _).mpr (Or.inr ⟨by omega, by omega, by omega⟩)
+    exact (takeWrap_of_normIdx xs _ _ this).1
+
+example : takeWrap [10, 20, 30] (-1) = some 30 ∧ takeWrap [10, 20, 30] (-3) = some 10 ∧
+    takeWrap [10, 20, 30] (-4) = none := by decide
+
+namespace C19
+
+theorem normPair_some {K n : ℕ} {p : ℤ × ℤ} {q : ℕ × ℕ} (h : normPair K n p = some q) :
+    normIdx K p.1 = some q.1 ∧ normIdx n p.2 = some q.2 := by
+  unfold normPair at h
+  cases h1 : normIdx K p.1 <;> cases h2 : normIdx n p.2 <;> simp_all
+  obtain ⟨rfl⟩ := h
+  exact ⟨rfl, rfl⟩
+
+/-- the signed field on pairs whose normalisation is `ps` is the `Nat`-indexed field on `ps` -/
+theorem psiFieldI_eq (srcs evts : List (ℝ × ℝ)) (fl : Option ℝ) :
+    ∀ (pairs : List (ℤ × ℤ)) (ps : List (ℕ × ℕ)),
+      pairs.map (normPair srcs.length evts.length) = ps.map some →
+      psiFieldI srcs evts pairs fl = psiField srcs evts ps fl
+  | [], [], _ => rfl
+  | [], _ :: _, h => by simp at h
+  | _ :: _, [], h => by simp at h
+  | p :: pairs, q :: ps, h => by
+    simp only [List.map_cons, List.cons.injEq] at h
+    have ih := psiFieldI_eq srcs evts fl pairs ps h.2
+    obtain ⟨h1, h2⟩ := normPair_some h.1
+    have e1 := (takeWrap_of_normIdx srcs p.1 q.1 h1).1
+    have e2 := (takeWrap_of_normIdx evts p.2 q.2 h2).1
+    simp only [psiFieldI, psiField, List.map_cons] at ih ⊢
+    rw [ih, e1, e2]
+    cases srcs[q.1]? <;> cases evts[q.2]? <;> rfl
+
+end C19
+
+/-- **the `psi` field over signed index pairs refines the `Nat`-indexed one**: when every pair is
+valid under numpy's rule (normalised pairs `ps`), the call returns exactly what the call on `ps`
+returns — so `c19_psi_field` / `c19_psiFieldCall` (value i = angle between the unit vectors of the
+event and the source the pair names, counted from the end for negative indices) transfer -/
+theorem c19_psiFieldCallI_refines (srcs evts : List (ℝ × ℝ)) (pairs : List (ℤ × ℤ)) (ps : List (ℕ × ℕ))
+    (fl : Option ℝ) (h : pairs.map (normPair srcs.length evts.length) = ps.map some) :
+    psiFieldCallI srcs evts pairs fl = psiFieldCall srcs evts ps fl := by
+  unfold psiFieldCallI psiFieldCall
+  rw [C19.psiFieldI_eq srcs evts fl pairs ps h]
+
+example : ([((-1 : ℤ), (0 : ℤ)), (0, -2)]).map (normPair 2 2) = ([((1 : ℕ), (0 : ℕ)), (0, 0)]).map some := by decide
+
+/-- non-negative pairs: the signed call *is* the `Nat`-indexed call -/
+theorem c19_psiFieldCallI_nat (srcs evts : List (ℝ × ℝ)) (ps : List (ℕ × ℕ)) (fl : Option ℝ) :
+    psiFieldCallI srcs evts (ps.map fun q => ((q.1 : ℤ), (q.2 : ℤ))) fl = psiFieldCall srcs evts ps fl := by
+  have hI : ∀ xs : List (ℝ × ℝ), ∀ k : ℕ, takeWrap xs (k : ℤ) = xs[k]? := fun xs k => (c19_takeWrap xs k).1
+  unfold psiFieldCallI psiFieldCall
+  have : psiFieldI srcs evts (ps.map fun q => ((q.1 : ℤ), (q.2 : ℤ))) fl = psiField srcs evts ps fl := by
+    simp only [psiFieldI, psiField, List.map_map]
+    refine List.map_congr_left fun q _ => ?_
+    simp only [Function.comp, hI]
+    cases srcs[q.1]? <;> cases evts[q.2]? <;> rfl
+  rw [this]
+
+/-- **the signed call raises exactly when some index is outside `[-n, n)`** (numpy's `IndexError`
+for the whole call); otherwise it returns one value per pair -/
+theorem c19_psiFieldCallI_error (srcs evts : List (ℝ × ℝ)) (pairs : List (ℤ × ℤ)) (fl : Option ℝ) :
+    (psiFieldCallI srcs evts pairs fl = .error .index ↔
+      ∃ p ∈ pairs, ¬ (-(srcs.length : ℤ) ≤ p.1 ∧ p.1 < srcs.length) ∨
+                   ¬ (-(evts.length : ℤ) ≤ p.2 ∧ p.2 < evts.length)) ∧
+    (∀ vals, psiFieldCallI srcs evts pairs fl = .ok vals → vals.length = pairs.length) := by
+  have key : (psiFieldI srcs evts pairs fl).all Option.isSome = true ↔
+      ∀ p ∈ pairs, (-(srcs.length : ℤ) ≤ p.1 ∧ p.1 < srcs.length) ∧
+                   (-(evts.length : ℤ) ≤ p.2 ∧ p.2 < evts.length) := by
+    simp only [psiFieldI, List.all_map, List.all_eq_true, Function.comp]
+    refine forall₂_congr fun p _ => ?_
+    rw [← C19.takeWrap_isSome_iff srcs p.1, ← C19.takeWrap_isSome_iff evts p.2]
+    cases takeWrap srcs p.1 <;> cases takeWrap evts p.2 <;> simp
+  unfold psiFieldCallI
+  by_cases h : (psiFieldI srcs evts pairs fl).all Option.isSome = true
+  · simp only [h, if_true]
+    refine ⟨⟨fun hc => (by cases hc), ?_⟩, ?_⟩
+    · rintro ⟨p, hp, hbad⟩
+      have := key.mp h p hp
+      tauto
+    · intro vals hv
+      simp only [Except.ok.injEq] at hv
+      rw [← hv]
+      have hl : (psiFieldI srcs evts pairs fl).length = pairs.length := by simp [psiFieldI]
+      rw [← hl]
+      clear hl hv key
+      generalize psiFieldI srcs evts pairs fl = l at h ⊢
+      induction l with
+      | nil => rfl
+      | cons x xs ih =>
+        simp only [List.all_cons, Bool.and_eq_true] at h
+        obtain ⟨v, hv⟩ := Option.isSome_iff_exists.mp h.1
+        have := ih h.2
+        subst hv
+        simpa using this
+  · have hf : (psiFieldI srcs evts pairs fl).all Option.isSome = false := by simpa using h
+    simp only [hf]
+    refine ⟨⟨fun _ => ?_, fun _ => rfl⟩, fun vals hv => by cases hv⟩
+    by_contra hc
+    push Not at hc
+    exact h (key.mpr fun p hp => by have := hc p hp; tauto)
+
+example : ¬ (-((([] : List (ℝ × ℝ)).length : ℤ)) ≤ (0 : ℤ) ∧ (0 : ℤ) < (([] : List (ℝ × ℝ)).length : ℤ)) := by simp
+
+/-! ### element-wise statements for the broadcasting calls -/
+
+namespace C19
+
+theorem bget_some {α : Type} (xs : List α) (m i : ℕ) (hl : xs.length = 1 ∨ xs.length = m) (hi : i < m) :
+    ∃ a, bget xs i = some a := by
+  unfold bget
+  by_cases h1 : xs.length = 1
+  · have : (xs.length == 1) = true := by simpa using h1
+    simp only [this, if_true]
+    exact ⟨xs[0], by simp [List.getElem?_eq_getElem (by omega : 0 < xs.length)]⟩
+  · have hm : xs.length = m := hl.resolve_left h1
+    have : (xs.length == 1) = false := by simpa using h1
+    simp only [this]
+    exact ⟨xs[i], by simp [List.getElem?_eq_getElem (by omega : i < xs.length)]⟩
+
+theorem filterMap_range_eq_map {β : Type} (m : ℕ) (f : ℕ → Option β) (g : ℕ → β)
+    (h : ∀ i < m, f i = some (g i)) : (List.range m).filterMap f = (List.range m).map g := by
+  induction m with
+  | zero => simp
+  | succ m ih =>
+    rw [List.range_succ, List.filterMap_append, List.map_append, ih (fun i hi => h i (by omega))]
+    simp [h m (by omega)]
+
+end C19
+
+/-- **`azi_to_ra_transform` as one call, element by element**: a successful call has the broadcast
+length `m`; value `i` is the per-element transformation of the `i`-th azimuth and time *after
+broadcasting* (a length-1 argument is used for every element), and every value is in `[0, 2π)` -/
+theorem c19_aziToRaCall_elem (len off : ℝ) (azi mjd vals : List ℝ)
+    (h : aziToRaCall len off azi mjd = .ok vals) :
+    ∃ m, bcastLen [azi.length, mjd.length] = .ok m ∧ vals.length = m ∧
+      (∀ i, i < m → ∃ a t, bget azi i = some a ∧ bget mjd i = some t ∧
+        vals[i]? = some (aziToRa len off a t)) ∧
+      ∀ r ∈ vals, RaOk r := by
+  unfold aziToRaCall bcastRows at h
+  simp only [List.map_cons, List.map_nil] at h
+  cases hb : bcastLen [azi.length, mjd.length] with
+  | error e => rw [hb] at h; cases h
+  | ok m =>
+    rw [hb] at h
+    simp only [Except.ok.injEq] at h
+    have hlens := (c19_bcastLen _).1 m hb
+    have hA : ∀ i, i < m → ∃ a, bget azi i = some a :=
+      fun i hi => C19.bget_some azi m i (hlens _ (by simp)) hi
+    have hT : ∀ i, i < m → ∃ t, bget mjd i = some t :=
+      fun i hi => C19.bget_some mjd m i (hlens _ (by simp)) hi
+    let g : ℕ → ℝ := fun i => aziToRa len off ((bget azi i).getD 0) ((bget mjd i).getD 0)
+    have hv : vals = (List.range m).map g := by
+      rw [← h, List.filterMap_map]
+      apply C19.filterMap_range_eq_map
+      intro i hi
+      obtain ⟨a, ha⟩ := hA i hi
+      obtain ⟨t, ht⟩ := hT i hi
+      simp [Function.comp, g, ha, ht]
+    refine ⟨m, rfl, by simp [hv], fun i hi => ?_, fun r hr => ?_⟩
+    · obtain ⟨a, ha⟩ := hA i hi
+      obtain ⟨t, ht⟩ := hT i hi
+      refine ⟨a, t, ha, ht, ?_⟩
+      simp [hv, hi, g, ha, ht]
+    · rw [hv] at hr
+      obtain ⟨i, _, rfl⟩ := List.mem_map.mp hr
+      exact raOk_modF _
+
+example : aziToRaCall (1 : ℝ) 0 [1, 2] [5] = .ok [aziToRa 1 0 1 5, aziToRa 1 0 2 5] := by
+  simp [aziToRaCall, bcastRows, bcastLen, bget, List.range, List.range.loop]
+
+/-- **`angular_separation` as one call, element by element**: a successful call has the broadcast
+length; value `i` is never NaN and is the separation (with the floor) of the `i`-th elements after
+broadcasting — so every `c19_*` statement about `angSep` holds for every element of every call -/
+theorem c19_angSepCall_elem (ra1 dec1 ra2 dec2 : List ℝ) (fl : Option ℝ) (vals : List (Option ℝ))
+    (h : angSepCall ra1 dec1 ra2 dec2 fl = .ok vals) :
+    ∃ m, bcastLen [ra1.length, dec1.length, ra2.length, dec2.length] = .ok m ∧ vals.length = m ∧
+      ∀ i, i < m → ∃ a b c d, bget ra1 i = some a ∧ bget dec1 i = some b ∧ bget ra2 i = some c ∧
+        bget dec2 i = some d ∧ vals[i]? = some (some (angSepFloor a b c d fl)) := by
+  unfold angSepCall bcastRows at h
+  simp only [List.map_cons, List.map_nil] at h
+  cases hb : bcastLen [ra1.length, dec1.length, ra2.length, dec2.length] with
+  | error e => rw [hb] at h; cases h
+  | ok m =>
+    rw [hb] at h
+    simp only [Except.ok.injEq] at h
+    have hlens := (c19_bcastLen _).1 m hb
+    refine ⟨m, rfl, by simp [← h], fun i hi => ?_⟩
+    obtain ⟨a, ha⟩ := C19.bget_some ra1 m i (hlens _ (by simp)) hi
+    obtain ⟨b, hb'⟩ := C19.bget_some dec1 m i (hlens _ (by simp)) hi
+    obtain ⟨c, hc⟩ := C19.bget_some ra2 m i (hlens _ (by simp)) hi
+    obtain ⟨d, hd⟩ := C19.bget_some dec2 m i (hlens _ (by simp)) hi
+    refine ⟨a, b, c, d, ha, hb', hc, hd, ?_⟩
+    rw [← h]
+    simp only [List.getElem?_map, List.getElem?_range hi, Option.map_some, List.filterMap_cons, ha, hb', hc, hd,
+      List.filterMap_nil, c19_angSepD_eq]
+    cases fl <;> simp [angSepFloor]
+
+/-- **`hor_to_equ_transform` as one call**: it raises exactly when `azi_to_ra_transform(azi, mjd)`
+does (the zenith array takes no part in the broadcasting); the right ascensions are those of
+`azi_to_ra_transform` (all in `[0, 2π)`), and the declinations are `π − zen` element by element of
+`zen` alone — one per zenith angle, whatever the length of the other two arguments; a declination is
+canonical iff its zenith angle is in `[π/2, 3π/2]` (the open finding, now at call level) -/
+theorem c19_horToEquCall (len off : ℝ) (azi zen mjd : List ℝ) :
+    (∀ e, horToEquCall len off azi zen mjd = .error e ↔ aziToRaCall len off azi mjd = .error e) ∧
+    (∀ ra dec, horToEquCall len off azi zen mjd = .ok (ra, dec) →
+      aziToRaCall len off azi mjd = .ok ra ∧ (∀ r ∈ ra, RaOk r) ∧ dec.length = zen.length ∧
+      (∀ (i : ℕ) z, zen[i]? = some z → dec[i]? = some (π - z)) ∧
+      (∀ (i : ℕ) z d, zen[i]? = some z → dec[i]? = some d → (DecOk d ↔ π / 2 ≤ z ∧ z ≤ 3 * π / 2))) := by
+  unfold horToEquCall
+  cases hc : aziToRaCall len off azi mjd with
+  | error e0 => exact ⟨fun e => by simp, fun ra dec h => by cases h⟩
+  | ok ra0 =>
+    refine ⟨fun e => by simp, fun ra dec h => ?_⟩
+    simp only [Except.ok.injEq, Prod.mk.injEq] at h
+    obtain ⟨rfl, rfl⟩ := h
+    obtain ⟨m, -, -, -, hr⟩ := c19_aziToRaCall_elem len off azi mjd ra0 hc
+    refine ⟨rfl, hr, by simp, fun i z hz => by simp [hz, TranscReal.pi_def], fun i z d hz hd => ?_⟩
+    have : d = π - z := by simpa [hz, TranscReal.pi_def] using hd.symm
+    subst this
+    simp only [DecOk]
+    constructor
+    · rintro ⟨h1, h2⟩; constructor <;> linarith
+    · rintro ⟨h1, h2⟩; constructor <;> linarith
+
+example : horToEquCall (1 : ℝ) 0 [1, 2] [3] [5] = .ok ([aziToRa 1 0 1 5, aziToRa 1 0 2 5], [Transc.pi - 3]) := by
+  simp [horToEquCall, aziToRaCall, bcastRows, bcastLen, bget, List.range, List.range.loop]
+
+/-- `ra_to_azi_transform` as one call is `azi_to_ra_transform` as one call (same function, as coded),
+so the call-level round trip returns every azimuth in `[0, 2π)` unchanged -/
+theorem c19_raToAziCall (len off : ℝ) (ra mjd : List ℝ) :
+    raToAziCall len off ra mjd = aziToRaCall len off ra mjd := rfl
+
+/-! ### the signatures the call-level model and the harness depend on (regenerated from the source) -/
+
+/-- **argument order and defaults of the current source**: the call-level model (`angSepCall ra1 dec1
+ra2 dec2 psiFloor`, `rotateCall`, `relocateCall src true reco`, `aziToRaCall azi mjd`,
+`horToEquCall azi zen mjd`) and the positional calls of the harness assume exactly these parameter
+lists, and `psiFloor = none` is the default of both `angular_separation` and
+`get_tdm_field_func_psi`.  A renamed, reordered, added or removed parameter or a changed default
+breaks this proof obligation. -/
+theorem c19_signatures_for_current_source :
+    Gen.C19.angSepParams = ["ra1", "dec1", "ra2", "dec2", "psi_floor"] ∧
+    Gen.C19.angSepRequired = ["ra1", "dec1", "ra2", "dec2"] ∧
+    Gen.C19.rotateParams = ["ra1", "dec1", "ra2", "dec2", "ra3", "dec3"] ∧
+    Gen.C19.relocateParams = ["src_ra", "src_dec", "evt_true_ra", "evt_true_dec", "evt_reco_ra", "evt_reco_dec"] ∧
+    Gen.C19.aziToRaParams = ["azi", "mjd"] ∧
+    Gen.C19.raToAziParams = ["ra", "mjd"] ∧
+    Gen.C19.horToEquParams = ["azi", "zen", "mjd"] ∧
+    Gen.C19.psiFieldFuncParams = ["psi_floor"] ∧
+    Gen.C19.angSepFloorDefaultNone = true ∧
+    Gen.C19.psiFieldFloorDefaultNone = true := by decide
+
+/-- **`psi_to_dec_and_ra` as one call**: with as many circle parameters as opening angles (what the
+one request `uniform(0, 2π, size=len(psi))` delivers) the call succeeds and returns two lists of
+that length, declinations first; entry `i` is the per-element function of `(psi_i, t_i)`, its
+declination and right ascension are canonical, and for `psi_i ∈ [0, π]` it lies at separation
+`psi_i` from the source -/
+theorem c19_psiToDecRaCall (srcDec srcRa : ℝ) (psis ts : List ℝ) (h : ts.length = psis.length) :
+    (psiDrawRequest psis).2.2 = psis.length ∧
+    ∃ decs ras, psiToDecRaCall srcDec srcRa psis ts = .ok (decs, ras) ∧
+      decs.length = psis.length ∧ ras.length = psis.length ∧
+      ∀ (i : ℕ) psi t, psis[i]? = some psi → ts[i]? = some t →
+        decs[i]? = some (psiToDecRa srcDec srcRa psi t).1 ∧
+        ras[i]? = some (psiToDecRa srcDec srcRa psi t).2 ∧
+        DecOk (psiToDecRa srcDec srcRa psi t).1 ∧ RaOk (psiToDecRa srcDec srcRa psi t).2 ∧
+        (0 ≤ psi → psi ≤ π →
+          angSep srcRa srcDec (psiToDecRa srcDec srcRa psi t).2 (psiToDecRa srcDec srcRa psi t).1 = psi) := by
+  refine ⟨rfl, _, _, by simp [psiToDecRaCall, h]; exact ⟨rfl, rfl⟩, by simp [h], by simp [h], ?_⟩
+  intro i psi t hp ht
+  refine ⟨by simp [List.getElem?_zipWith, hp, ht], by simp [List.getElem?_zipWith, hp, ht],
+    c19_dec_range_generated.1 _ _ _ _, c19_ra_range.2.2.1 _ _ _ _, c19_psi_offset _ _ _ _⟩
+
+example : ([0.5, 0.25] : List ℝ).length = ([1, 2] : List ℝ).length := rfl
+
+/-- a different number of values from the random state makes the call fail -/
+theorem c19_psiToDecRaCall_error (srcDec srcRa : ℝ) (psis ts : List ℝ) (h : ts.length ≠ psis.length) :
+    psiToDecRaCall srcDec srcRa psis ts = .error .shape := by
+  simp [psiToDecRaCall, h]
